@@ -573,4 +573,81 @@ example : setTarget ⟨1, 2, 0, 0, false⟩ ⟨.ok, 9, 0, 0, some 9⟩ 3 = some 
 example : clearTarget ⟨1, 2, 0, 0, false⟩ ⟨.ok, 9, 0, 0, some 9⟩ = some 9 := by decide
 example : joinFloor 5 = 4 ∧ joinFloor 0 = 0 := by decide
 
+
+/-! ## command status (previously only judged: `viol:failed-command-mutated-row`) -/
+
+/-- what `membershipMutationHead` answers, as a function of the row and the head outcome -/
+def mutationStatus (row : Option Row) (h : Head) : Status :=
+  match row with
+  | none => .notFound
+  | some r =>
+    if r.tomb then .notFound
+    else match h.outcome with
+      | .ok | .noVisible => .ok
+      | .delete => .notFound
+      | .retry => .notReady
+      | .bad => .other
+
+theorem mutationHead_status (row : Option Row) (h : Head) :
+    (mutationStatus row h = .ok → ∃ r, row = some r ∧ r.tomb = false ∧ mutationHead row h = .ok (r, h)) ∧
+    (mutationStatus row h ≠ .ok → mutationHead row h = .error (mutationStatus row h)) := by
+  unfold mutationStatus mutationHead
+  cases row with
+  | none => simp
+  | some r =>
+    cases ht : r.tomb
+    · cases ho : h.outcome <;> simp [ht]
+    · simp [ht]
+
+/-- **Command status is exact and a refused command changes nothing** (the path the
+    judge covers with `viol:failed-command-mutated-row`): ClearUnread, SetUnread and
+    DeleteConversation answer NotFound for a missing / tombstoned membership or a
+    terminally deleted channel, RouteNotReady for an unavailable leader, an error for an
+    invalid hydration outcome (SetUnread also for a negative count) — and in every such
+    case the stored row is left exactly as it was; they succeed in all other cases. -/
+theorem c34_command_status_exact (row : Option Row) (h : Head) (n : Int) :
+    (clearStep row h).1 = mutationStatus row h ∧
+    (deleteStep row h).1 = mutationStatus row h ∧
+    (setStep row h n).1 = (if n < 0 then .other else mutationStatus row h) ∧
+    ((clearStep row h).1 ≠ .ok → (clearStep row h).2 = row) ∧
+    ((deleteStep row h).1 ≠ .ok → (deleteStep row h).2 = row) ∧
+    ((setStep row h n).1 ≠ .ok → (setStep row h n).2 = row) := by
+  obtain ⟨hok, herr⟩ := mutationHead_status row h
+  by_cases hs : mutationStatus row h = .ok
+  · obtain ⟨r, hr, ht, hm⟩ := hok hs
+    have hc : (clearStep row h).1 = .ok := by
+      unfold clearStep; rw [hm]; simp only; cases clearTarget r h <;> rfl
+    have hd : (deleteStep row h).1 = .ok := by unfold deleteStep; rw [hm]
+    refine ⟨by rw [hc, hs], by rw [hd, hs], ?_, fun hne => absurd hc hne, fun hne => absurd hd hne, ?_⟩
+    · unfold setStep
+      by_cases hn : n < 0
+      · simp [hn]
+      · simp only [hn, if_false]; rw [hm, hs]; simp only; cases setTarget r h n.toNat <;> rfl
+    · unfold setStep
+      by_cases hn : n < 0
+      · simp [hn]
+      · simp only [hn, if_false]; rw [hm]; simp only
+        cases setTarget r h n.toNat <;> simp
+  · have hm := herr hs
+    have hc : clearStep row h = (mutationStatus row h, row) := by unfold clearStep; rw [hm]
+    have hd : deleteStep row h = (mutationStatus row h, row) := by unfold deleteStep; rw [hm]
+    refine ⟨by rw [hc], by rw [hd], ?_, fun _ => by rw [hc], fun _ => by rw [hd], ?_⟩
+    · unfold setStep
+      by_cases hn : n < 0
+      · simp [hn]
+      · simp only [hn, if_false]; rw [hm]
+    · intro _
+      unfold setStep
+      by_cases hn : n < 0
+      · simp [hn]
+      · simp only [hn, if_false]; rw [hm]
+
+-- non-vacuity: each status is reachable
+example : (clearStep none Head.zero).1 = .notFound := by decide
+example : clearStep (some ⟨1, 2, 0, 0, false⟩) ⟨.retry, 9, 0, 0, none⟩ = (.notReady, some ⟨1, 2, 0, 0, false⟩) := by decide
+example : deleteStep (some ⟨1, 2, 0, 0, false⟩) ⟨.delete, 9, 0, 0, none⟩ = (.notFound, some ⟨1, 2, 0, 0, false⟩) := by decide
+example : setStep (some ⟨1, 2, 0, 0, false⟩) ⟨.ok, 9, 0, 0, none⟩ (-1) = (.other, some ⟨1, 2, 0, 0, false⟩) := by decide
+example : (setStep (some ⟨1, 2, 0, 0, false⟩) ⟨.ok, 9, 0, 0, none⟩ 3).1 = .ok := by decide
+
+
 end WK.C34
